@@ -366,3 +366,50 @@ Proof. split; [reflexivity|]. split; [reflexivity|]. cbn. lia. Qed.
 (* without a maximal exponent rounding never fails *)
 Lemma round_pos_total f neg m e st : f_maxexp f = None -> round_pos f neg m e st <> None.
 Proof. intros H. rewrite round_pos_eq. cbn zeta. rewrite H. discriminate. Qed.
+
+(* ---- the exponent of the last place of the result, explicitly: that of the
+   operand, or the one that leaves prec bits, or emin, whichever is largest;
+   the rounded mantissa has at most prec bits or is 2^prec *)
+Theorem round_mag_exponent prec emin m e st : 0 < prec ->
+  snd (round_mag prec emin m e st) =
+    Z.max e (match emin with
+             | Some em => Z.max (bitlen (Zpos m) + e - prec) em
+             | None => bitlen (Zpos m) + e - prec
+             end) /\
+  0 <= fst (round_mag prec emin m e st) <= 2 ^ prec.
+Proof.
+  intros Hp. pose proof (round_mag_shape prec emin m e st Hp) as H. cbn zeta in H.
+  destruct (round_mag prec emin m e st) as [q e']. cbn [fst snd].
+  destruct H as [He' [Hq _]]. split; [|exact Hq].
+  unfold round_shift in He'. destruct emin; lia.
+Qed.
+
+(* ---- monotonicity of the functions *)
+Theorem round_fl_monotone f x1 x2 r1 r2 : 0 < f_prec f ->
+  round_fl f x1 = Some r1 -> round_fl f x2 = Some r2 -> (flQ x1 < flQ x2)%Q -> (flQ r1 <= flQ r2)%Q.
+Proof.
+  intros Hp H1 H2. apply (rounds_to_monotone (f_prec f) (f_emin f)).
+  - exact (round_fl_rounds f x1 r1 Hp H1).
+  - exact (round_fl_rounds f x2 r2 Hp H2).
+Qed.
+
+Theorem round_rat_monotone f n1 d1 n2 d2 r1 r2 : 0 < f_prec f ->
+  round_rat f n1 d1 = Some r1 -> round_rat f n2 d2 = Some r2 -> (n1 # d1 < n2 # d2)%Q -> (flQ r1 <= flQ r2)%Q.
+Proof.
+  intros Hp H1 H2. apply (rounds_to_monotone (f_prec f) (f_emin f)).
+  - exact (round_rat_rounds f n1 d1 r1 Hp H1).
+  - exact (round_rat_rounds f n2 d2 r2 Hp H2).
+Qed.
+
+(* rounding an element of the format returns it *)
+Theorem round_fl_exact f x r : 0 < f_prec f -> round_fl f x = Some r ->
+  in_format (f_prec f) (f_emin f) (flQ x) -> (flQ r == flQ x)%Q.
+Proof. intros Hp H. apply rounds_to_exact. exact (round_fl_rounds f x r Hp H). Qed.
+
+Theorem round_fl_idempotent f x r r' : 0 < f_prec f -> round_fl f x = Some r -> round_fl f r = Some r' ->
+  (flQ r' == flQ r)%Q.
+Proof.
+  intros Hp H H'. apply (rounds_to_idempotent (f_prec f) (f_emin f) (flQ x)).
+  - exact (round_fl_rounds f x r Hp H).
+  - exact (round_fl_rounds f r r' Hp H').
+Qed.
